@@ -838,6 +838,9 @@ class JupiterMoons(object):
             X = X_coordinate
             Y = Y_coordinate
             Z = Z_coordinate
+        for value in (R, DELTA, X, Y, Z):
+            if not isinstance(value, (int, float)):
+                raise TypeError("Invalid input types")
 
         # Differential light-time correction:
         # Correction factors for the satellites (index + 1 = No. of satellite)
